@@ -34,12 +34,13 @@ def sh(cmd: str, cwd: str | None = None, env: dict | None = None, timeout: int =
     return p.returncode, p.stdout + p.stderr
 
 
-def confirm(seed: Path, refactor: bool = False) -> dict:
+def confirm(seed: Path, refactor: bool = False, base: str = "HEAD") -> dict:
     wt = tempfile.mkdtemp(prefix="seedwt-")
     os.rmdir(wt)
     out: dict = {}
     try:
-        rc, o = sh(f"git -C {REPO} worktree add -q --detach {wt} HEAD")
+        rc, o = sh(f"git -C {REPO} worktree add -q --detach {wt} {base}")
+        out["base"] = base
         if rc:
             return {"error": o}
         env = {"PYTHONPATH": f"{wt}/src:{wt}", "SEED_CHECKOUT": wt}
@@ -115,7 +116,8 @@ def main() -> int:
     props = props or [c["property_id"] for c in manifest["checks"]]
     summary: dict = {"seed": str(seed)}
     if do_confirm:
-        summary["confirm"] = confirm(seed, refactor="--refactor" in args)
+        base = next((a.split("=", 1)[1] for a in args if a.startswith("--base=")), "HEAD")
+        summary["confirm"] = confirm(seed, refactor="--refactor" in args, base=base)
         print("confirm:", json.dumps(summary["confirm"])[:600])
         (seed / "confirm.json").write_text(json.dumps(summary["confirm"], indent=1))
         if not summary["confirm"].get("confirmed"):
